@@ -89,6 +89,8 @@ def canon_impl_event(name, detail):
         return "vac.find %s" % (",".join(keys) if keys else "-")
     if name == "cmd.done":
         return "cmd.done %s" % detail
+    if name in ("txn.lock.begin", "ddl.create.begin"):
+        return "lock.begin"
     return name
 
 
